@@ -118,7 +118,9 @@ CHECKS = {
           "c20_io_failure (handler notified exactly once iff installed; exit iff absent or true), c20_read_after_close, "
           "c20_closed_only_by_close over Dispatch.lean; on the whole-Metadata-server model (Conc/MetaClose.lean) the thread-level course of "
           "close(): CloseInv inductive over every schedule, c20s_closed (writer stopped, every accepted task done, socket closed, reader gone), "
-          "c20s_writer_flushed, mstep_close_no_handler, c20s_close_progress; tied by lock-step co-simulation of close scenarios, by fault-injection co-simulation of both real servers under the scheduler (EOF / "
+          "c20s_writer_flushed, mstep_close_no_handler, c20s_close_progress, and I/O failures (Conc/MetaFault.lean): mstep_io_only_on_fault, "
+          "mstep_read_fault / mstep_write_fault (handler told once iff installed, exit iff absent or true), mreach_nio, mreach_exited, "
+          "mstep_fault_isolated; tied by lock-step co-simulation of close and failure scenarios, by fault-injection co-simulation of both real servers under the scheduler (EOF / "
           "reset at every inbound offset class, each write index up to 8, close requests by id and agreed version, close() twice, handler "
           "absent/True/False/None, pool tasks in flight) and by the reader-dispatch differential.",
   "ref": "DESIGN.md §5 C20",
